@@ -417,6 +417,8 @@ pub struct TunnelSeen {
     pub up_sent: usize,
     pub fin_sent: bool,
     pub error: Option<String>,
+    /// CONNECTION_CLOSE received from the endpoint: (application close, error code)
+    pub peer_close: Option<(bool, u64)>,
 }
 
 /// CONNECT over a fresh QUIC connection, then the script; keeps the connection alive (and keeps
@@ -554,6 +556,7 @@ pub async fn h3_tunnel(
         let t = conn.timeout().unwrap_or(Duration::from_millis(5)).min(Duration::from_millis(5));
         let _ = tokio::time::timeout(t, socket.readable()).await;
     }
+    seen.peer_close = conn.peer_error().map(|e| (e.is_app, e.error_code));
     let _ = conn.close(true, 0, b"");
     flush(&socket, &mut conn).await;
     seen
